@@ -402,7 +402,10 @@ def _vec_at(interp, p):
 def m_vec_push(interp, args, info):
     c, path, v = _vec_at(interp, args[0])
     if isinstance(v, Tok):
-        return interp.policy.list_push(interp, c, path, v, args[1])
+        hook = getattr(interp.policy, "list_push", None)
+        if hook is None:
+            raise Inconclusive("Vec::push on the opaque list %r" % (v,), interp.where())
+        return hook(interp, c, path, v, args[1])
     if not isinstance(v, ListV):
         raise Inconclusive("Vec::push on %r" % (v,), interp.where())
     interp.write(c, path, ListV(v.items + (args[1],)))
@@ -674,6 +677,13 @@ def make_iter(interp, v):
             return make_iter(interp, tgt)
         if isinstance(tgt, IterV):
             return IterV("byref", v)           # `&mut I`: advancing it advances the iterator it points to
+        if isinstance(tgt, Adt) and tgt.name == "std::option::Option":
+            # `&Option<T>` iterates over a reference to the value, if any
+            c_, path_ = interp.deref(v)
+            if is_some(tgt):
+                return IterV("vec", ListV([Ptr(c_, tuple(path_) + (("v", tgt.variant), ("f", 0)))])) if False else \
+                    IterV("vec", ListV([mkref(tgt.fields[0])]))
+            return IterV("vec", ListV(()))
         raise Inconclusive("into_iter on reference to %r" % (tgt,), interp.where())
     if isinstance(v, ListV):
         return IterV("vec", v)
@@ -2972,3 +2982,83 @@ def m_str_eq_ignore_ascii_case(interp, args, info):
         return a.s.lower() == b.s.lower() if a.s.isascii() and b.s.isascii() else \
             "".join(c.lower() if c.isascii() else c for c in a.s) == "".join(c.lower() if c.isascii() else c for c in b.s)
     raise Inconclusive("eq_ignore_ascii_case on %r %r" % (a, b), interp.where())
+
+
+# ----------------------------------------------------------------------------- std::cmp free functions
+
+@_model_missing("std::cmp::max_by", "core::cmp::max_by")
+def m_cmp_max_by(interp, args, info):
+    # documented: returns the second argument if the comparison determines them to be equal
+    c = ordering_to_int(interp.call_value(args[2], [mkref(args[0]), mkref(args[1])]))
+    return args[0] if c > 0 else args[1]
+
+
+@_model_missing("std::cmp::min_by", "core::cmp::min_by")
+def m_cmp_min_by(interp, args, info):
+    # documented: returns the first argument if the comparison determines them to be equal
+    c = ordering_to_int(interp.call_value(args[2], [mkref(args[0]), mkref(args[1])]))
+    return args[1] if c > 0 else args[0]
+
+
+@_model_missing("std::cmp::max_by_key", "core::cmp::max_by_key")
+def m_cmp_max_by_key(interp, args, info):
+    ka, kb = interp.call_value(args[2], [mkref(args[0])]), interp.call_value(args[2], [mkref(args[1])])
+    return args[0] if cmp_values(interp, ka, kb) > 0 else args[1]
+
+
+@_model_missing("std::cmp::min_by_key", "core::cmp::min_by_key")
+def m_cmp_min_by_key(interp, args, info):
+    ka, kb = interp.call_value(args[2], [mkref(args[0])]), interp.call_value(args[2], [mkref(args[1])])
+    return args[1] if cmp_values(interp, ka, kb) > 0 else args[0]
+
+
+# ----------------------------------------------------------------------------- integer helper methods on concrete values
+
+def _int_method(name, f):
+    def m(interp, args, info):
+        vals = []
+        for a in args:
+            if isinstance(a, Tok) and a.kind == "I" and getattr(interp.policy, "witness", False):
+                a = a.val + a.off
+            vals.append(_need_int(interp, a, name))
+        ty = info["def"].split("<impl ", 1)[1].split(">", 1)[0] if "<impl " in info["def"] else "u64"
+        signed = ty.startswith("i")
+        bits = {"usize": 64, "isize": 64}.get(ty) or int("".join(ch for ch in ty if ch.isdigit()) or 64)
+        lo, hi = (-(1 << (bits - 1)), (1 << (bits - 1)) - 1) if signed else (0, (1 << bits) - 1)
+        return f(vals, lo, hi, bits, signed)
+    return m
+
+
+def _sat(r, lo, hi):
+    return max(lo, min(hi, r))
+
+
+def _chk(r, lo, hi):
+    return some(r) if lo <= r <= hi else NONE
+
+
+def _wrapv(r, lo, hi, bits, signed):
+    r &= (1 << bits) - 1
+    return r - (1 << bits) if signed and r > hi else r
+
+
+for _ty in ("u8", "u16", "u32", "u64", "u128", "usize", "i8", "i16", "i32", "i64", "i128", "isize"):
+    _p = "core::num::<impl %s>::" % _ty
+    MODELS.setdefault(_p + "saturating_add", _int_method("saturating_add", lambda v, lo, hi, b, s: _sat(v[0] + v[1], lo, hi)))
+    MODELS.setdefault(_p + "saturating_sub", _int_method("saturating_sub", lambda v, lo, hi, b, s: _sat(v[0] - v[1], lo, hi)))
+    MODELS.setdefault(_p + "saturating_mul", _int_method("saturating_mul", lambda v, lo, hi, b, s: _sat(v[0] * v[1], lo, hi)))
+    MODELS.setdefault(_p + "checked_add", _int_method("checked_add", lambda v, lo, hi, b, s: _chk(v[0] + v[1], lo, hi)))
+    MODELS.setdefault(_p + "checked_sub", _int_method("checked_sub", lambda v, lo, hi, b, s: _chk(v[0] - v[1], lo, hi)))
+    MODELS.setdefault(_p + "checked_mul", _int_method("checked_mul", lambda v, lo, hi, b, s: _chk(v[0] * v[1], lo, hi)))
+    MODELS.setdefault(_p + "wrapping_add", _int_method("wrapping_add", lambda v, lo, hi, b, s: _wrapv(v[0] + v[1], lo, hi, b, s)))
+    MODELS.setdefault(_p + "wrapping_sub", _int_method("wrapping_sub", lambda v, lo, hi, b, s: _wrapv(v[0] - v[1], lo, hi, b, s)))
+    MODELS.setdefault(_p + "wrapping_mul", _int_method("wrapping_mul", lambda v, lo, hi, b, s: _wrapv(v[0] * v[1], lo, hi, b, s)))
+    MODELS.setdefault(_p + "pow", _int_method("pow", lambda v, lo, hi, b, s: v[0] ** v[1] if lo <= v[0] ** v[1] <= hi else (_ for _ in ()).throw(Panic("overflow", None, "pow"))))
+    MODELS.setdefault(_p + "ilog10", _int_method("ilog10", lambda v, lo, hi, b, s: len(str(v[0])) - 1 if v[0] > 0 else (_ for _ in ()).throw(Panic("ilog_zero", None, "ilog10 of zero"))))
+    MODELS.setdefault(_p + "checked_ilog10", _int_method("checked_ilog10", lambda v, lo, hi, b, s: some(len(str(v[0])) - 1) if v[0] > 0 else NONE))
+    MODELS.setdefault(_p + "abs_diff", _int_method("abs_diff", lambda v, lo, hi, b, s: abs(v[0] - v[1])))
+    MODELS.setdefault(_p + "min", _int_method("min", lambda v, lo, hi, b, s: min(v)))
+    MODELS.setdefault(_p + "max", _int_method("max", lambda v, lo, hi, b, s: max(v)))
+    MODELS.setdefault(_p + "is_power_of_two", _int_method("is_power_of_two", lambda v, lo, hi, b, s: v[0] > 0 and v[0] & (v[0] - 1) == 0))
+    MODELS.setdefault(_p + "leading_zeros", _int_method("leading_zeros", lambda v, lo, hi, b, s: b - v[0].bit_length() if v[0] >= 0 else 0))
+    MODELS.setdefault(_p + "count_ones", _int_method("count_ones", lambda v, lo, hi, b, s: bin(v[0] & ((1 << b) - 1)).count("1")))
